@@ -1,4 +1,4 @@
-// C15 verification master: switchable valid_read / valid_write policy, every consultation is logged
+// C15 verification master WITHOUT valid_read / valid_write (the applies return "not defined")
 //   VL valid_read|valid_write [path] <caller> <operation> -> 0 | 1 | =[string]
 #include "/include/vcommon.h"
 
@@ -49,8 +49,6 @@ private mixed verdict (string fn, string path, mixed who, string op) {
   return v;
 }
 
-mixed valid_read (string path, mixed who, string fn) { return verdict ("valid_read", path, who, fn); }
-mixed valid_write (string path, mixed who, string fn) { return verdict ("valid_write", path, who, fn); }
 
 // errors are not part of the C15 traces
 string error_handler (mapping m, int caught) { return ""; }
